@@ -276,6 +276,14 @@ class Analysis:
                 r = arith(base, a, b)
                 if base == 'Sub' and r is not None and a is not None and self.known_lt(st, rv['b'], rv['a']):
                     r = (max(r[0], 1), max(min(r[1], a[1]), 1))
+                if base == 'Sub' and b is not None and b[0] >= 1 and op_place(rv['a']) is not None:
+                    zk = (lk[0], lk[1] + (('f', 0, '0'), ))
+                    for k2 in [k2 for k2 in st if k2 and k2[0] in FACT_TAGS and zk in k2[1:]]:
+                        st.pop(k2)
+                    ak = self.canon(place_key(op_place(rv['a'])))
+                    self.add_fact(st, ('lt', zk, ak))
+                    for k2 in [k2 for k2 in st if k2 and k2[0] in ('lt', 'le') and k2[1] == ak and k2[2][0] == 'slen']:
+                        self.add_fact(st, ('lt', zk, k2[2]))  # z < a <= len(s)
                 if base == 'Add':
                     f0 = self.sum_fact((lk[0], lk[1] + (('f', 0, '0'), )), rv['a'], rv['b'])
                     for k2 in [k2 for k2 in st if k2 and k2[0] in FACT_TAGS and (lk[0], lk[1] + (('f', 0, '0'), )) in k2[1:]]:
@@ -323,6 +331,12 @@ class Analysis:
             elif rv['op'] == 'PtrMetadata':
                 # length of a slice / array reference
                 val = self.len_of_ref_operand(st, rv['a'])
+                p_ = op_place(rv['a'])
+                if p_ is not None:
+                    if not hasattr(self, 'slen_of'):
+                        self.slen_of = {}
+                    self.slen_of[lk] = self.slice_ident(place_key(p_))
+                    self.add_fact(st, ('le', lk, self.slen_of[lk]))
             else:
                 val = rng
         elif k == 'repeat' or k == 'agg' or k == 'ref' or k == 'rawptr':
@@ -371,6 +385,7 @@ class Analysis:
         # copies / value-preserving casts, add the ones this statement produces
         for k2 in [k2 for k2 in st if k2 and k2[0] in FACT_TAGS and lk in k2[1:]]:
             st.pop(k2)
+        self.kill_slen(st, lk)
         if k == 'use' or (k == 'cast' and self.cast_preserves(st, rv)):
             p0 = op_place(rv['a'])
             if p0 is not None:
@@ -503,6 +518,7 @@ class Analysis:
             p = op_place(args[0])
             if p is not None and callee != 'str::len':
                 self._set_aux2 = ('lenof', self.root_of_ref(place_key(p)))
+                self._call_facts = (getattr(self, '_call_facts', None) or []) + [('le', dk, self.slice_ident(place_key(p)))]
             if p is not None and callee == 'str::len':
                 key = ('strlen', self.root_of_ref(place_key(p)))
                 if key in st:
@@ -720,6 +736,7 @@ class Analysis:
         self._set_aux = None
         for k2 in [k2 for k2 in st if k2 and k2[0] in FACT_TAGS and dk in k2[1:]]:
             st.pop(k2)
+        self.kill_slen(st, dk)
         st.pop(('lenof', dk), None)
         sa2 = getattr(self, '_set_aux2', None)
         if sa2 is not None:
@@ -788,6 +805,22 @@ class Analysis:
                 out = root  # a copy of `*r`: stands for what r points to (also `(*param).field` reached through an alias)
         return out
 
+    def kill_slen(self, st, lk):
+        """a store to local L (or below it) ends every fact about the length of a slice held in L; a store through a
+        pointer could retarget any slice reference whose address was taken, so it ends all of them"""
+        through_ptr = bool(lk[1]) and lk[1][0] == ('deref', )
+        for k2 in [k2 for k2 in st if k2 and k2[0] in ('lt', 'le') and isinstance(k2[2], tuple) and k2[2] and k2[2][0] == 'slen'
+                   and (through_ptr or k2[2][1][0] == lk[0])]:
+            st.pop(k2)
+
+    def slice_ident(self, pk):
+        """symbolic identity of the length of the slice a reference points to"""
+        root = self.root_of_ref(pk)
+        path = root[1]
+        while path and path[-1] == ('deref', ):
+            path = path[:-1]
+        return ('slen', (root[0], path))
+
     def cast_preserves(self, st, rv):
         v = self.read_operand(st, rv['a'])
         trng = type_range(self.fn.ty(rv['to']))
@@ -809,6 +842,8 @@ class Analysis:
         if f is None:
             return
         st[f] = (1, 1)
+        if f[0] == 'lt':
+            st[('le', f[1], f[2])] = (1, 1)  # the weaker fact survives a join with a path that only knows `<=`
         if f[0] in ('lt', 'le'):
             # transitive closure one step: x <= y, y <= z  =>  x <= z
             for k2 in [k2 for k2 in list(st) if k2 and k2[0] in ('lt', 'le') and k2[1] == f[2]]:
@@ -1525,6 +1560,10 @@ class Analysis:
                 return 'ok', 'index %s < len %s' % (fmt(ix), fmt(ln))
             if self.known_lt(st, msg['ops'][1], msg['ops'][0]):
                 return 'ok', 'index is known to be strictly below the length by a preceding comparison'
+            lp = op_place(msg['ops'][0])
+            sl = getattr(self, 'slen_of', {}).get(place_key(lp)) if lp is not None else None
+            if sl is not None and any(('lt', x, sl) in st for x in self.keys_of(msg['ops'][1])):
+                return 'ok', 'index is below a count that never exceeds the length of this slice (n = s.len(); .. s[n - 1])'
             return 'fail', 'index %s not provably below len %s' % (fmt(ix), fmt(ln))
         if kind in ('div0', 'rem0'):
             d = None
